@@ -8,6 +8,7 @@ require (
 	github.com/awalterschulze/gographviz v2.0.3+incompatible // indirect
 	github.com/google/btree v1.1.2 // indirect
 	github.com/oklog/ulid/v2 v2.0.2 // indirect
+	github.com/pkg/errors v0.9.1 // indirect
 	github.com/segmentio/fasthash v1.0.3 // indirect
 	github.com/tidwall/btree v1.3.1 // indirect
 	github.com/zyedidia/generic v1.1.0 // indirect
